@@ -37,7 +37,7 @@ func g9Tabulate(c *Ctx, name string, fi *FuncInfo) {
 		or.pos = 0
 		in := &Interp{repo: c.Repo, plugin: "derive", decls: sw.decls, or: or, memo: map[string]int{}, shape: 2,
 			arities: []int{2, 1, 0}, preds: map[string]Value{}, stack: map[*ast.FuncDecl]int{}, imports: map[string]int{}, importUse: map[string]bool{},
-			holes: map[string]*Hole{}}
+			holes: map[string]*Hole{}, g9mode: true}
 		arg := &VOpaque{Origin: "t"}
 		var res Value
 		msg := ""
@@ -233,4 +233,63 @@ func g9Zero(c *Ctx) {
 		}
 	}
 	_ = types.Typ
+}
+
+// g9Ordered tabulates the isOrdered predicates of min/max: true exactly for basic types whose Info() has IsOrdered.
+func g9Ordered(c *Ctx, names ...string) {
+	for _, name := range names {
+		fi := c.Repo.lookup(name)
+		if fi == nil {
+			c.Rep.fail(Finding{Rule: "G9", Key: "G9|" + name + "|missing", Kind: "undecided", Msg: "predicate " + name + " not found (the rule that licenses `<`/`>` in min/max relies on it)"})
+			continue
+		}
+		or := &Oracle{}
+		for n := 0; n < 200; n++ {
+			or.pos = 0
+			in := &Interp{repo: c.Repo, plugin: "derive", decls: c.R.decls, or: or, memo: map[string]int{}, shape: 1, arities: []int{1},
+				preds: map[string]Value{}, stack: map[*ast.FuncDecl]int{}, imports: map[string]int{}, importUse: map[string]bool{}, holes: map[string]*Hole{}, g9mode: true}
+			arg := &VOpaque{Origin: "t"}
+			var res Value
+			msg := ""
+			func() {
+				defer func() {
+					if e := recover(); e != nil {
+						msg = fmt.Sprint(e)
+					}
+				}()
+				res = in.callFunc(&VFunc{Decl: fi.Decl, Pkg: fi.Pkg}, []Value{arg}, token.NoPos)
+			}()
+			b, isBool := res.(VBool)
+			switch {
+			case msg != "" || !isBool:
+				c.Rep.fail(Finding{Rule: "G9", Key: "G9|" + name + "|undecided", Kind: "undecided", Where: []string{c.Repo.pos(fi.Decl.Pos())}, Msg: name + " cannot be tabulated: " + msg})
+			case arg.Kind == "*types.Basic":
+				// with short-circuit evaluation the orderedness test has been decided by the oracle on this path
+				asked := false
+				for _, d := range in.decisions {
+					if strings.Contains(d.Sym, "IsOrdered") {
+						asked = true
+						if (d.Choice == 0) != (b.Known && b.V) && b.Known {
+							asked = false
+						}
+					}
+				}
+				if asked || (!b.Known && strings.Contains(b.Sym, "IsOrdered")) {
+					c.Rep.pass("G9")
+				} else {
+					c.Rep.fail(Finding{Rule: "G9", Key: "G9|" + name + "|basic", Where: []string{c.Repo.pos(fi.Decl.Pos())},
+						Msg: name + ": the answer for a basic type does not follow its IsOrdered flag (answer: " + boolDesc(b) + "): bool and complex values would be ordered with `<`/`>`"})
+				}
+			default:
+				if b.Known && !b.V {
+					c.Rep.pass("G9")
+				} else {
+					c.Rep.fail(Finding{Rule: "G9", Key: "G9|" + name + "|non-basic", Where: []string{c.Repo.pos(fi.Decl.Pos())}, Msg: name + ": a non-basic type is reported as ordered"})
+				}
+			}
+			if !or.next() {
+				break
+			}
+		}
+	}
 }
